@@ -2,6 +2,8 @@ package main
 
 import (
 	"fmt"
+	"os"
+	"runtime/debug"
 	"go/ast"
 	"go/types"
 	"sort"
@@ -105,7 +107,11 @@ type UnsupportedError struct{ Msg string }
 func (e *UnsupportedError) Error() string { return e.Msg }
 
 func unsupported(format string, args ...interface{}) {
-	panic(&UnsupportedError{fmt.Sprintf(format, args...)})
+	msg := fmt.Sprintf(format, args...)
+	if os.Getenv("GOVC_DEBUG") != "" {
+		msg += "\n" + string(debug.Stack())
+	}
+	panic(&UnsupportedError{msg})
 }
 
 // Exec is the symbolic executor for one function under contract (or one lemma).
